@@ -80,36 +80,15 @@ theorem find?_filter_of_imp {α} (p q : α → Bool) (l : List α) (h : ∀ x, p
 
 /-! ### p0f signature -/
 
-theorem inList_imp_ciMem (l : List String) (n : Bytes) (h : inList l n = true) : ciMem n l = true := by
-  unfold inList at h; unfold ciMem
-  rw [List.any_eq_true] at h ⊢
-  obtain ⟨s, hs, he⟩ := h
-  refine ⟨s, hs, ?_⟩
-  unfold ciEq; simp at he; rw [he]; simp
+theorem inList_eq_ciMem (l : List String) (n : Bytes) : inList l n = ciMem n l := by
+  unfold inList ciMem ciEq
+  congr 1
+  funext s
+  exact BEq.comm
 
-theorem convertHeader_eq_sigEntry (isReq : Bool) (h : Hdr) (hk : KF.C05.nameCaseOf isReq h.name = false) :
-    convertHeader isReq h = sigEntry isReq h := by
-  unfold KF.C05.nameCaseOf at hk
-  simp only [Bool.or_eq_false_iff, Bool.and_eq_false_iff] at hk
+theorem convertHeader_eq_sigEntry (isReq : Bool) (h : Hdr) : convertHeader isReq h = sigEntry isReq h := by
   unfold convertHeader sigEntry
-  rw [← optionalList_eq, ← skipValueList_eq] at hk ⊢
-  cases h1 : inList (optionalList isReq) h.name with
-  | true => simp [inList_imp_ciMem _ _ h1]
-  | false =>
-    have c1 : ciMem h.name (optionalList isReq) = false := by
-      rcases hk.1 with h' | h'
-      · exact h'
-      · simp [h1] at h'
-    simp only [c1, Bool.false_eq_true, if_false]
-    cases h2 : inList (skipValueList isReq) h.name with
-    | true => simp [inList_imp_ciMem _ _ h2]
-    | false =>
-      have c2 : ciMem h.name (skipValueList isReq) = false := by
-        rcases hk.2 with (h' | h') | h'
-        · simp [c1] at h'
-        · exact h'
-        · simp [h2] at h'
-      simp [c2]
+  rw [inList_eq_ciMem, inList_eq_ciMem, optionalList_eq, skipValueList_eq]
 
 theorem absentHeaders_eq (isReq : Bool) (hs : List Hdr) : absentHeaders isReq hs = absentOf isReq hs := by
   unfold absentHeaders absentOf
